@@ -252,7 +252,7 @@ func checkC09(c *km.Ctx) {
 			ok := false
 			desc := "no return of the passphrase found"
 			for _, rc := range s.RetCases(prompt) {
-				if km.IsNilConst(rc.Ret.Results[0]) {
+				if km.IsNilConst(rc.Results[0]) {
 					continue
 				}
 				// returning the passphrase: `failed` was false and has been set true before
